@@ -106,7 +106,7 @@ class BigSyncRun:
                 with open(os.path.join(d, "bulk%04d.ics" % i), "wb") as f:
                     f.write(("BEGIN:VCALENDAR\r\nVERSION:2.0\r\nPRODID:-//xsim//bulk//EN\r\nBEGIN:VEVENT\r\nUID:bulk-%d\r\nDTSTAMP:20200101T000000Z\r\nDTSTART:20200102T000000Z\r\nSUMMARY:b%d\r\nEND:VEVENT\r\nEND:VCALENDAR\r\n" % (i, i)).encode())
             env = dict(os.environ, GIT_CONFIG_GLOBAL="/dev/null")
-            for cmd in (["git", "-c", "safe.directory=*", "add", "-A"], ["git", "-c", "safe.directory=*", "commit", "-q", "-m", "bulk"]):
+            for cmd in (["git", "-c", "safe.directory=*", "add", "-A"], ["git", "-c", "safe.directory=*", "-c", "user.name=bulk", "-c", "user.email=bulk@example.com", "commit", "-q", "-m", "bulk"]):
                 subprocess.run(cmd, cwd=d, env=env, check=True, capture_output=True, timeout=120)
             self.count("members", n)
             FS.reset()
